@@ -5,6 +5,7 @@ package main
 import (
 	"fmt"
 	"go/ast"
+	"go/types"
 	"sort"
 	"strings"
 )
@@ -15,7 +16,9 @@ const (
 	kCleanerDeleteOld = "(*internal/usecase/cleaner.UseCase).DeleteOld"
 )
 
-// sequence roles, frozen per enclosing function (+ whether the draw sits in the RunTransaction literal)
+// sequence roles by entry point: a draw belongs to the entry point on whose stack it executes, whether it is
+// written in the entry point itself or in a same-package helper it calls. Inside UpdateTx the draws whose value
+// is stamped into a version within the RunTransaction callback are COMMIT_STAMP, the others PROVISIONAL.
 var seqRoles = map[string]string{
 	kCoreStore:                 "VERSION_STAMP",
 	kUpdateTx:                  "PROVISIONAL", // loop over the transaction's files; overwritten before the write
@@ -26,51 +29,115 @@ var seqRoles = map[string]string{
 }
 
 type seqSite struct {
-	fn     *FuncInfo
+	root   *FuncInfo // entry point
+	fn     *FuncInfo // function whose body contains the call
 	call   *ast.CallExpr
 	inLit  bool
 	inLoop bool
 	role   string
 	pos    string
+	held   []Held // locks certainly held at the draw (entry point's locks included)
+	evs    []*LockEvent
+}
+
+// seqRootEvents returns the lock events of an entry point and of the helpers running on its stack.
+func seqRootEvents(p *Prog, root *FuncInfo) []*LockEvent {
+	return p.DeepLockEvents(root, nil, 3)
+}
+
+func heldAtAll(evs []*LockEvent, c *ast.CallExpr) []Held {
+	var inter []Held
+	n := 0
+	for _, e := range evs {
+		if e.Call != c || e.Kind != "call" {
+			continue
+		}
+		if n == 0 {
+			inter = append([]Held{}, e.Held...)
+		} else {
+			var keep []Held
+			for _, h := range inter {
+				for _, g := range e.Held {
+					if g.Path == h.Path {
+						if g.Mode == "R" {
+							h.Mode = "R"
+						}
+						keep = append(keep, h)
+					}
+				}
+			}
+			inter = keep
+		}
+		n++
+	}
+	return inter
 }
 
 func seqNextSites(p *Prog) []seqSite {
 	var res []seqSite
+	attributed := map[*ast.CallExpr]bool{}
+	var roots []string
+	for k := range seqRoles {
+		if !strings.HasSuffix(k, "$lit") {
+			roots = append(roots, k)
+		}
+	}
+	sort.Strings(roots)
+	for _, k := range roots {
+		root := p.Funcs[k]
+		if root == nil || root.Decl.Body == nil {
+			continue
+		}
+		evs := seqRootEvents(p, root)
+		var stamps map[*ast.CallExpr]bool
+		var cbLoop map[*ast.CallExpr]bool
+		if k == kUpdateTx {
+			stamps, cbLoop = commitStampDraws(p, root)
+		}
+		seen := map[*ast.CallExpr]bool{}
+		for _, ev := range evs {
+			if ev.Kind != "call" || ev.Call == nil || seen[ev.Call] {
+				continue
+			}
+			is := false
+			for _, kk := range ev.Keys {
+				if kk == kSeqNext {
+					is = true
+				}
+			}
+			if !is {
+				continue
+			}
+			seen[ev.Call] = true
+			attributed[ev.Call] = true
+			s := seqSite{root: root, fn: ev.Fn, call: ev.Call, pos: p.pos(ev.Call), inLit: ev.InLit != nil, evs: evs}
+			s.held = heldAtAll(evs, ev.Call)
+			s.inLoop = insideLoop(ev.Fn.Decl.Body, ev.Call)
+			key := k
+			if k == kUpdateTx {
+				if stamps[ev.Call] {
+					key += "$lit"
+					s.inLoop = cbLoop[ev.Call]
+				}
+			} else if s.inLit && ev.Fn == root {
+				key += "$lit"
+			}
+			s.role = seqRoles[key]
+			res = append(res, s)
+		}
+	}
+	// draws that run on no known entry point's stack
 	for _, k := range sortedFuncKeys(p) {
 		fi := p.Funcs[k]
 		if fi.Decl.Body == nil {
 			continue
 		}
-		var lits []*ast.FuncLit
-		ast.Inspect(fi.Decl.Body, func(x ast.Node) bool {
-			if l, ok := x.(*ast.FuncLit); ok {
-				lits = append(lits, l)
-			}
-			return true
-		})
 		ast.Inspect(fi.Decl.Body, func(x ast.Node) bool {
 			c, ok := x.(*ast.CallExpr)
-			if !ok || !p.callIs(fi.Pkg, c, kSeqNext) {
+			if !ok || !p.callIs(fi.Pkg, c, kSeqNext) || attributed[c] {
 				return true
 			}
-			s := seqSite{fn: fi, call: c, pos: p.pos(c)}
-			for _, l := range lits {
-				if c.Pos() >= l.Body.Pos() && c.End() <= l.Body.End() {
-					s.inLit = true
-				}
-			}
-			s.inLoop = insideLoop(fi.Decl.Body, c)
-			key := k
-			if k == kUpdateTx {
-				// COMMIT_STAMP = the draw whose value is stored into a version's Seq inside the RunTransaction literal
-				if commitStampDraws(p, fi)[c] {
-					key += "$lit"
-				}
-			} else if s.inLit {
-				key += "$lit"
-			}
-			s.role = seqRoles[key]
-			res = append(res, s)
+			res = append(res, seqSite{root: fi, fn: fi, call: c, pos: p.pos(c), inLoop: insideLoop(fi.Decl.Body, c)})
 			return true
 		})
 	}
@@ -90,18 +157,18 @@ func propC08(p *Prog, r *Report) {
 	if fi == nil {
 		r.Undecided("C08.a", kUpdateTx, "", "core.UpdateTx not found")
 	} else {
-		lr := p.LockFlow(fi, nil)
+		evs := seqRootEvents(p, fi)
 		dest := c03DestStore(p, fi)
 		n := 0
-		stamps := commitStampDraws(p, fi)
+		stamps, _ := commitStampDraws(p, fi)
 		seenCall := map[*ast.CallExpr]bool{}
-		for _, ev := range lr.eventsCalling(kSeqNext) {
-			if !stamps[ev.Call] || seenCall[ev.Call] {
+		for _, ev := range evs {
+			if ev.Kind != "call" || !stamps[ev.Call] || seenCall[ev.Call] {
 				continue
 			}
 			seenCall[ev.Call] = true
 			n++
-			hs, _ := mustHeldAny(lr, ev.Call)
+			hs := heldAtAll(evs, ev.Call)
 			okAll := dest != nil && holdsMode(hs, dest.Name()+".m", "W")
 			r.Check(okAll, "C08.a", kUpdateTx+"#commit-stamps-under-main-write-lock", p.pos(ev.Call), "commit stamps drawn under "+heldString(hs),
 				"the commit's sequence number is drawn without the destination store's write lock (held "+heldString(hs)+"): a snapshot reader holding the read lock can see part of the batch")
@@ -163,6 +230,9 @@ func propC08(p *Prog, r *Report) {
 		if s.inLit {
 			key += "$lit"
 		}
+		if s.root != s.fn {
+			key = s.root.Key + " via " + key
+		}
 		table = append(table, map[string]any{"site": key, "pos": s.pos, "role": s.role, "in_loop": s.inLoop})
 		if s.role == "" {
 			r.Undecided("C08.c", "seq-role/"+key, s.pos, "a new call site of sequence.Next is not classified: its role decides which exclusion it needs")
@@ -182,17 +252,14 @@ func propC08(p *Prog, r *Report) {
 	r.Tables["sequence_sites"] = table
 	// S1
 	for _, b := range begin {
-		lr := p.LockFlow(b.fn, nil)
-		hs, _ := mustHeldAny(lr, b.call)
+		hs := b.held
 		// write-held classes across the batch
 		batchClasses := map[string]bool{}
 		single := len(commit) > 0
 		for _, c := range commit {
-			clr := p.LockFlow(c.fn, nil)
-			chs, _ := mustHeldAny(clr, c.call)
-			for _, h := range chs {
+			for _, h := range c.held {
 				if h.Mode == "W" {
-					batchClasses[h.Class+"|"+storeRole(p, c.fn, h.Path)] = true
+					batchClasses[h.Class+"|"+storeRole(p, c.root, h.Path)] = true
 				}
 			}
 			if c.inLoop {
@@ -201,23 +268,20 @@ func propC08(p *Prog, r *Report) {
 		}
 		common := false
 		for _, h := range hs {
-			if batchClasses[h.Class+"|"+storeRole(p, b.fn, h.Path)] {
+			if batchClasses[h.Class+"|"+storeRole(p, b.root, h.Path)] {
 				common = true
 			}
 		}
-		cons := "seq-exclusion/" + strings.TrimPrefix(b.fn.Key, "(*internal/usecase/") + "#S1"
-		cons = "seq-exclusion/transaction.Begin#S1"
+		cons := "seq-exclusion/transaction.Begin#S1"
 		r.Check(common || single, "C08.c", cons, b.pos, "snapshot draw excluded from commit batches",
 			fmt.Sprintf("Begin draws its snapshot point holding %s while a commit stamps its versions one by one under %v: the point can fall between two stamps of one commit and the transaction sees part of it", heldString(hs), keysOf(batchClasses)))
 	}
 	// S2
 	for _, g := range gc {
-		glr := p.LockFlow(g.fn, nil)
-		ghs := regionHeld(p, glr, g.fn, []string{kTxRepoOldest, kSeqNext})
+		ghs := regionHeld(g.evs, []string{kTxRepoOldest, kSeqNext})
 		var bhs []Held
 		for _, b := range begin {
-			blr := p.LockFlow(b.fn, nil)
-			bhs = regionHeld(p, blr, b.fn, []string{kSeqNext, kTxRepoStore})
+			bhs = regionHeld(b.evs, []string{kSeqNext, kTxRepoStore})
 		}
 		common := false
 		for _, a := range ghs {
@@ -245,11 +309,25 @@ func keysOf(m map[string]bool) []string {
 	return ks
 }
 
-// regionHeld intersects the locksets held at all calls of the given keys in the function.
-func regionHeld(p *Prog, lr *LockResult, fi *FuncInfo, keys []string) []Held {
+// regionHeld intersects the locksets held at all calls of the given keys among the events.
+func regionHeld(evs []*LockEvent, keys []string) []Held {
 	var inter []Held
 	first := true
-	for _, ev := range lr.eventsCalling(keys...) {
+	for _, ev := range evs {
+		if ev.Kind != "call" {
+			continue
+		}
+		m := false
+		for _, k := range ev.Keys {
+			for _, w := range keys {
+				if k == w {
+					m = true
+				}
+			}
+		}
+		if !m {
+			continue
+		}
 		if first {
 			inter = append([]Held{}, ev.Held...)
 			first = false
@@ -258,8 +336,9 @@ func regionHeld(p *Prog, lr *LockResult, fi *FuncInfo, keys []string) []Held {
 		var keep []Held
 		for _, h := range inter {
 			for _, g := range ev.Held {
-				if g.Path == h.Path {
+				if g.Class == h.Class {
 					keep = append(keep, h)
+					break
 				}
 			}
 		}
@@ -268,25 +347,44 @@ func regionHeld(p *Prog, lr *LockResult, fi *FuncInfo, keys []string) []Held {
 	return inter
 }
 
-// commitStampDraws returns the sequence.Next calls of UpdateTx whose value is assigned to a .Seq field
-// inside the function literal passed to RunTransaction (directly or through a single-definition local).
-func commitStampDraws(p *Prog, fi *FuncInfo) map[*ast.CallExpr]bool {
-	res := map[*ast.CallExpr]bool{}
+// commitStampDraws returns the sequence.Next calls whose value is assigned to a .Seq field inside the callback
+// passed to RunTransaction (directly or through a single-definition local), following same-package helpers of
+// the callback; the second result tells which of them sit on a cycle of the callback's flow graph (one draw
+// per version instead of one per commit).
+func commitStampDraws(p *Prog, fi *FuncInfo) (map[*ast.CallExpr]bool, map[*ast.CallExpr]bool) {
+	res, loop := map[*ast.CallExpr]bool{}, map[*ast.CallExpr]bool{}
 	info := fi.Pkg.TypesInfo
-	ast.Inspect(fi.Decl.Body, func(x ast.Node) bool {
-		c, ok := x.(*ast.CallExpr)
-		if !ok || !p.callIs(fi.Pkg, c, kRepoRunTx) {
-			return true
+	outer := p.FlatInl(fi)
+	for _, on := range outer.Nodes {
+		if on.Ast == nil {
+			continue
 		}
-		for _, a := range c.Args {
-			lit, ok := ast.Unparen(a).(*ast.FuncLit)
-			if !ok {
+		for _, c := range callsIn(on.Ast, false) {
+			if !p.callIs(fi.Pkg, c, kRepoRunTx) {
 				continue
 			}
-			ast.Inspect(lit.Body, func(y ast.Node) bool {
-				as, ok := y.(*ast.AssignStmt)
+			cb := p.callbackOf(fi, c)
+			if cb == nil {
+				continue
+			}
+			cf := p.FlatInl(cb)
+			// single definitions of locals inside the (inlined) callback
+			defs := map[types.Object][]ast.Expr{}
+			defNode := map[types.Object]int{}
+			for _, gn := range cf.Nodes {
+				if as, ok := gn.Ast.(*ast.AssignStmt); ok && len(as.Lhs) == len(as.Rhs) {
+					for i, l := range as.Lhs {
+						if o := objOf(info, l); o != nil {
+							defs[o] = append(defs[o], as.Rhs[i])
+							defNode[o] = gn.ID
+						}
+					}
+				}
+			}
+			for _, gn := range cf.Nodes {
+				as, ok := gn.Ast.(*ast.AssignStmt)
 				if !ok || len(as.Lhs) != len(as.Rhs) {
-					return true
+					continue
 				}
 				for i, l := range as.Lhs {
 					sel, ok := l.(*ast.SelectorExpr)
@@ -294,19 +392,31 @@ func commitStampDraws(p *Prog, fi *FuncInfo) map[*ast.CallExpr]bool {
 						continue
 					}
 					rhs := ast.Unparen(as.Rhs[i])
-					if o := objOf(info, rhs); o != nil {
+					drawNode := gn.ID
+					for hop := 0; hop < 4; hop++ {
+						o := objOf(info, rhs)
+						if o == nil {
+							break
+						}
+						if d := defs[o]; len(d) == 1 {
+							rhs = ast.Unparen(d[0])
+							drawNode = defNode[o]
+							continue
+						}
 						if d := singleDef(info, fi.Decl.Body, o); d != nil {
 							rhs = ast.Unparen(d)
 						}
+						break
 					}
 					if dc, ok := rhs.(*ast.CallExpr); ok && p.callIs(fi.Pkg, dc, kSeqNext) {
 						res[dc] = true
+						if cf.ReachableAfter(drawNode, setOf([]int{drawNode}), nil) {
+							loop[dc] = true
+						}
 					}
 				}
-				return true
-			})
+			}
 		}
-		return true
-	})
-	return res
+	}
+	return res, loop
 }
